@@ -43,7 +43,7 @@ DECADES = {"quick": [-20, -12, -6, -2, 0, 1, 6, 12, 20], "thorough": list(range(
 BINS = {"quick": [-40, 0, 3], "thorough": [-66, -40, -13, -1, 0, 3, 20, 66]}
 SINGLE_DEC = {"quick": [-20, 0, 6], "thorough": [-20, -9, -2, 0, 1, 9, 20]}
 SINGLE_BIN = {"quick": [0], "thorough": [-40, 0, 3]}
-PER_GROUP = {"quick": 8, "thorough": 40}
+PER_GROUP = {"quick": (3, 8), "thorough": (14, 40)}          # (rotated points per (rot, mult, mid0), integer matrices per class)
 
 # symmetric perturbation directions: the six basis directions span all of them (the rule is linear in H), one dense
 _B = []
@@ -696,12 +696,14 @@ def dense_observe(o, jscales, mode, dev):
 def stratified(pts, per, rng):
     groups = {}
     for o in pts:
-        groups.setdefault((o["kind"], o["mult"], o["mid0"], o["block"], o["def"] in ("pd", "psd")), []).append(o)
+        key = (o["kind"], o["rot"], o["mult"], o["mid0"]) if o["kind"] == "rot" else \
+              (o["kind"], o["mult"], o["mid0"], o["block"], o["def"] in ("pd", "psd"))
+        groups.setdefault(key, []).append(o)
     out = []
     for k in sorted(groups, key=str):
         g = sorted(groups[k], key=point_key)
         rng.shuffle(g)
-        out += g[:per]
+        out += g[:per[0] if k[0] == "rot" else per[1]]
     return out
 
 
